@@ -235,6 +235,19 @@ impl Universe {
         ]);
         let (c3, c3_salt, c3_state_root) = contract_id_of(&c3_code, 3);
 
+        // C4: reads storage slot 0 (logging value and "was set" flag), then stores an EMPTY value in it
+        let c4_code = bytes(vec![
+            op::move_(0x12, RegId::SP),
+            op::cfei(32),
+            op::mcli(0x12, 32),
+            op::srw(0x13, 0x14, 0x12, 0),
+            op::log(0x13, 0x14, RegId::ZERO, RegId::ZERO),
+            op::swri(0x12, 0x12, 0),
+            op::ret(RegId::ONE),
+        ]);
+        let (c4, _, _) = contract_id_of(&c4_code, 4);
+        // C5: a contract with empty bytecode, created by template `create_empty`
+        let (c5, c5_salt, c5_state_root) = contract_id_of(&[], 5);
         let predicate = bytes(vec![op::ret(RegId::ONE)]);
         let pred_owner = Input::predicate_owner(&predicate);
 
@@ -245,7 +258,7 @@ impl Universe {
             genesis_coins.push((gid(i), c));
             gid(i)
         };
-        for i in 0..40u8 {
+        for i in 0..48u8 {
             // even slots belong to A, a few to B
             let owner = if matches!(i, 2 | 31) { addr_b } else { addr_a };
             coin(i, owner, COIN, base);
@@ -600,6 +613,43 @@ impl Universe {
             push("upgrade_strict", b.finalize_as_transaction());
         }
 
+        // 40 creation of a contract with EMPTY bytecode (an empty stored value in ContractsRawCode)
+        {
+            let mut b = TransactionBuilder::create(Vec::<u8>::new().into(), c5_salt, vec![]);
+            b.with_params(cp.clone()).max_fee_limit(MAX_FEE);
+            b.add_unsigned_coin_input(ska, gid(40), COIN, base, z)
+                .add_output(Output::contract_created(c5, c5_state_root))
+                .add_output(Output::change(addr_a, 0, base));
+            push("create_empty", b.finalize_as_transaction());
+        }
+        // 41 script that reads the code root and size of the empty contract (valid once it exists)
+        {
+            let code = bytes(vec![
+                op::gtf_args(0x10, RegId::ZERO, GTFArgs::ScriptData),
+                op::move_(0x11, RegId::SP),
+                op::cfei(32),
+                op::croo(0x11, 0x10),
+                op::csiz(0x12, 0x10),
+                op::log(0x12, RegId::ZERO, RegId::ZERO, RegId::ZERO),
+                op::ret(RegId::ONE),
+            ]);
+            let mut b = script(code, c5.as_ref().to_vec());
+            b.add_unsigned_coin_input(ska, gid(41), COIN, base, z)
+                .add_input(contract_in(c5))
+                .add_output(Output::contract(1, Bytes32::zeroed(), Bytes32::zeroed()))
+                .add_output(Output::change(addr_a, 0, base));
+            push("read_empty", b.finalize_as_transaction());
+        }
+        // 42, 43 two calls of C4: the first stores an empty slot value, the second reads it back
+        for (name, slot) in [("slot_empty_a", 42u8), ("slot_empty_b", 43u8)] {
+            let mut b = script(call_script(0), call_data(base, c4, 0, addr_b));
+            b.add_unsigned_coin_input(ska, gid(slot), COIN, base, z)
+                .add_input(contract_in(c4))
+                .add_output(Output::contract(1, Bytes32::zeroed(), Bytes32::zeroed()))
+                .add_output(Output::change(addr_a, 0, base));
+            push(name, b.finalize_as_transaction());
+        }
+
         // ---- forced transactions and relayer script ---------------------------
         let forced_ok = {
             let mut b = script(vec![], vec![]);
@@ -669,7 +719,7 @@ impl Universe {
             for m in &genesis_msgs {
                 tx.storage_as_mut::<Messages>().insert(m.nonce(), m).unwrap();
             }
-            for (cid, code, bal_base, bal_x, n) in [(c1, &c1_code, 1000u64, 50u64, 0xC1u8), (c2, &c2_code, 0, 0, 0xC2)] {
+            for (cid, code, bal_base, bal_x, n) in [(c1, &c1_code, 1000u64, 50u64, 0xC1u8), (c2, &c2_code, 0, 0, 0xC2), (c4, &c4_code, 0, 0, 0xC4)] {
                 tx.storage_as_mut::<ContractsRawCode>().insert(&cid, code.as_slice()).unwrap();
                 let utxo = UtxoId::new(Bytes32::from([n; 32]), 0);
                 tx.storage_as_mut::<ContractsLatestUtxo>()
